@@ -8,11 +8,14 @@ from mc import pool, seams, factory_engine as F
 from . import c12
 
 CHARS = ["a", '"', "\\", ",", "[", "]", "\n", "é", " ", ";", "{", "#"]
+# (probes below: full-width quotation mark / reverse solidus and SMALL REVERSE SOLIDUS - compatibility characters that a normalisation
+# applied after escaping would turn into the ASCII delimiters)
 PROBES = ['a"; discard; #', "a\\", 'x" , "y', "a]", "${x}", "a\r\nb",
           # values that look like already-encoded Sieve syntax: multi-line literals (complete, with an inner terminator, with an injected
           # tail, with a separator only str.splitlines() knows), tags, numbers, a bracket comment
           "text:\na\n.", "text:\na\n.\nb\n.", "text:\nBack\n.\n;\ndiscard;\nstop;\nreject text:\nbye\n.", "text:\u2028.", "text:\n.",
-          'text:\nsay "hi"\n.', ":copy", ":is", "10", "1K", "/* x */", "true"]
+          'text:\nsay "hi"\n.', ":copy", ":is", "10", "1K", "/* x */", "true",
+          "spam\uff02, \uff02eggs", "Archive\uff3c", "a\ufe68", "x\uff02; discard; #", "cafe\u0301"]
 BENIGN = "BENIGNVALUE"
 
 
